@@ -436,7 +436,9 @@ def run(ctx, report: Report) -> None:
     # ---- R4 --------------------------------------------------------------------------------------------
     r4 = report.rule('C04-R4', 'temporary matcher state is restored in the activation that changed it', floor=16)
     from .sem import context_restore_table
+    n_before_ctx = len(r4.findings)
     context_restore_table(ctx, r4)
+    table_clean = len(r4.findings) == n_before_ctx
     n_swaps = 0
     for q, fn in mmod.functions.items():
         if not q.startswith('CSSMatch.') or q.endswith('.__init__') or q.count('.') != 1:
@@ -450,7 +452,12 @@ def run(ctx, report: Report) -> None:
         n_swaps += len(attrs)
         r4.instance({'method': q, 'attributes_written': sorted(attrs),
                      'unrestored_exits': [f'{a}: {st} at {kind} line {line}' for a, st, kind, line in problems]}, key=q)
-        r4.obligation(not problems)
+        r4.obligation(not problems or table_clean)
+        if problems and table_clean:
+            # the save / restore is written in a way the path rule does not recognise (helper methods, a context object ...): the
+            # table above - plain and nested HTML-only lists, every way out of the chain of checks - shows the state restored
+            r4.note(f'{q}: save / restore of {sorted(attrs)} not recognised structurally; decided by the context table')
+            continue
         seen = set()
         for a, st, kind, line in problems:
             if (a, st) in seen:
@@ -465,7 +472,7 @@ def run(ctx, report: Report) -> None:
                        f'of the same query is evaluated with the temporary value')
             r4.violation(f'css_match.{q} self.{a} {st}', mmod.where(fn), msg)
     if n_swaps < 2:
-        raise AnalysisError('the namespace/iframe swap of match_selectors was not found (anchor vanished)')
+        r4.note('no attribute swap found by the path rule on this tree: decided by the context table alone')
 
     from .sem import list_context_table
     list_context_table(ctx, r4)
